@@ -71,6 +71,11 @@ func newHTTPWorld() (*httpWorld, error) {
 		}
 		owner := o
 		bs := &http.Server{Handler: http.HandlerFunc(func(rw http.ResponseWriter, r *http.Request) {
+			if r.Method == http.MethodConnect {
+				rw.Header().Set("X-Backend", strconv.FormatInt(owner, 10))
+				rw.WriteHeader(200)
+				return
+			}
 			rid, _ := strconv.ParseInt(r.Header.Get("X-Req"), 10, 64)
 			ch := w.relChan(rid)
 			w.arrived <- arrival{owner, rid}
@@ -324,6 +329,38 @@ func (hc *h2cConn) beginStream(rid int64, host, path, user string) error {
 	return hc.fr.WriteHeaders(http2.HeadersFrameParam{StreamID: sid, BlockFragment: hb.Bytes(), EndStream: true, EndHeaders: true})
 }
 
+// connect sends an HTTP CONNECT to the vhost HTTP port and reports the backend the tunnel leads to (0 = 404)
+func (w *httpWorld) connect(host, user string) (int64, error) {
+	c, err := net.Dial("tcp", w.front.Addr().String())
+	if err != nil {
+		return 0, err
+	}
+	defer c.Close()
+	_ = c.SetDeadline(time.Now().Add(5 * time.Second))
+	req := "CONNECT " + host + " HTTP/1.1\r\nHost: " + host + "\r\n"
+	if user != "" {
+		req += "Proxy-Authorization: Basic " + base64.StdEncoding.EncodeToString([]byte(user+":x")) + "\r\n"
+	}
+	if _, err := c.Write([]byte(req + "\r\n")); err != nil {
+		return 0, err
+	}
+	resp, err := http.ReadResponse(bufio.NewReader(c), &http.Request{Method: http.MethodConnect})
+	if err != nil {
+		return 0, fmt.Errorf("CONNECT %s: %v", host, err)
+	}
+	switch resp.StatusCode {
+	case 404:
+		return 0, nil
+	case 200:
+		b, _ := strconv.ParseInt(resp.Header.Get("X-Backend"), 10, 64)
+		if b == 0 {
+			return 0, fmt.Errorf("CONNECT %s: 200 without backend label", host)
+		}
+		return b, nil
+	}
+	return 0, fmt.Errorf("CONNECT %s: status %d", host, resp.StatusCode)
+}
+
 // ---- histories ----
 type hOp struct {
 	kind               string // reg unreg begin end
@@ -369,6 +406,17 @@ func genHistory(g *hx.Gen, n int) []hOp {
 				hOp{kind: "end", rid: r1},
 				hOp{kind: "begin", rid: r2, host: h, path: p, user: t.u},
 				hOp{kind: "end", rid: r2})
+			continue
+		}
+		if g.Chance(0.07) {
+			h, _, u := reqFor(g, live, hHosts)
+			if strings.Contains(h, "*") || h == "" {
+				h = g.Pick(hHosts)
+			}
+			if !strings.Contains(h, ":") {
+				h += g.Pick([]string{":443", ":80", ".:443"})
+			}
+			ops = append(ops, hOp{kind: "connect", host: h, user: u})
 			continue
 		}
 		switch x := g.Intn(100); {
@@ -524,6 +572,17 @@ func (w *httpWorld) run(g *hx.Gen, ops []hOp, dist map[string]int) ([]string, er
 			}
 			out = append(out, fmt.Sprintf("(HBegin %d %d %d %s %s %s %s, %s)", o.rid, cc, proto, hx.HxS(o.host), hx.HxS(o.path), hx.HxS(o.user),
 				hx.Bool(dialed), res))
+		case "connect":
+			b, err := w.connect(o.host, o.user)
+			if err != nil {
+				return nil, err
+			}
+			res := "HNotFound"
+			if b != 0 {
+				res = fmt.Sprintf("HReached %d", b)
+			}
+			dist["CONNECT at the http vhost port"]++
+			out = append(out, fmt.Sprintf("(HConnect %s %s, %s)", hx.HxS(o.host), hx.HxS(o.user), res))
 		case "end":
 			if pendingOwner[o.rid] {
 				close(w.relChan(o.rid))
@@ -536,7 +595,7 @@ func (w *httpWorld) run(g *hx.Gen, ops []hOp, dist map[string]int) ([]string, er
 					return nil, fmt.Errorf("request %d: no answer within 10s after release", o.rid)
 				}
 				delete(pendingOwner, o.rid)
-				time.Sleep(1500 * time.Microsecond) // let the Transport put the backend connection back
+				time.Sleep(3 * time.Millisecond) // let the Transport put the backend connection back
 			}
 			out = append(out, fmt.Sprintf("(HEnd %d, HDone)", o.rid))
 		}
@@ -555,6 +614,7 @@ func runRouterHTTP(cfg *hx.RunCfg) error {
 			"Definition NH2C := Eval vm_compute in sum_cases (http_counter 2) cases.\nPrint NH2C.\n" +
 			"Definition NREGCONFLICT := Eval vm_compute in sum_cases (http_counter 3) cases.\nPrint NREGCONFLICT.\n" +
 			"Definition NSTALE := Eval vm_compute in sum_cases stale_counter cases.\nPrint NSTALE.\n" +
+			"Definition NCONNECT := Eval vm_compute in sum_cases (http_counter 4) cases.\nPrint NCONNECT.\n" +
 			"Definition NVIOL := Eval vm_compute in count_if (fun c => negb (C06_holds c)) cases.\nPrint NVIOL.\n",
 	}
 	dist := map[string]int{}
